@@ -126,42 +126,23 @@ harnesses! {
         }}; }
         t!(U42, 40, 2, "U42 40+2");
         t!(U42, 41, 1, "U42 41+1");
-        t!(U42, 39, 2, "U42 39+2");
         t!(U42, 39, 3, "U42 39+3");
         t!(U42, 32, 8, "U42 32+8");
-        t!(U42, 20, 3, "U42 20+3");
-        t!(U42, 19, 4, "U42 19+4");
         t!(U42, 0, 2, "U42 0+2");
-        t!(U42, 1, 2, "U42 1+2");
         t!(U48, 40, 8, "U48 40+8");
-        t!(U48, 46, 2, "U48 46+2");
-        t!(U48, 23, 2, "U48 23+2");
-        t!(U3, 0, 3, "U3 0+3");
         t!(U3, 1, 2, "U3 1+2");
-        t!(U3, 0, 2, "U3 0+2");
         t!(U5, 3, 2, "U5 3+2");
-        t!(U5, 4, 1, "U5 4+1");
-        t!(U5, 2, 3, "U5 2+3");
         t!(U6, 4, 2, "U6 4+2");
-        t!(U6, 2, 4, "U6 2+4");
         // tail copies of 8 bytes and more (library formulation)
         t!(U42, 34, 8, "U42 34+8");
-        t!(U42, 33, 9, "U42 33+9");
-        t!(U42, 30, 12, "U42 30+12");
-        t!(U42, 21, 21, "U42 21+21");
         {
             use generic_array::typenum::{U35, U50, U75};
             t!(U35, 27, 8, "U35 27+8");
-            t!(U35, 1, 34, "U35 1+34");
-            t!(U50, 42, 8, "U50 42+8");
-            t!(U50, 10, 40, "U50 10+40");
-            t!(U75, 33, 42, "U75 33+42");
-            t!(U75, 67, 8, "U75 67+8");
+                t!(U50, 42, 8, "U50 42+8");
+                    t!(U75, 67, 8, "U75 67+8");
         }
         // the copy patterns HKDF-Expand produces in suite M
         t!(U42, 0, 8, "U42 0+8");
-        t!(U42, 8, 8, "U42 8+8");
-        t!(U42, 16, 8, "U42 16+8");
         t!(U42, 24, 8, "U42 24+8");
         {
             use generic_array::typenum::{U1, U8};
@@ -204,13 +185,13 @@ harnesses! {
         let client_e_pk = spec::ke_public(e_sk_c);
         let mut ke1 = [0u8; 35];
         ke1[0] = req2;
-        ke1[1..33].copy_from_slice(&nonce_c);
-        ke1[33..35].copy_from_slice(&client_e_pk);
+        put(&mut ke1[1..33], &nonce_c);
+        put(&mut ke1[33..35], &client_e_pk);
         let masked = spec::mask(&reg.upload[2..10], &masking_nonce, &server_pk, &reg.upload[10..42], &reg.upload[42..50]);
         let mut head = [0u8; 75];
         head[0] = ev2;
-        head[1..33].copy_from_slice(&masking_nonce);
-        head[33..75].copy_from_slice(&masked);
+        put(&mut head[1..33], &masking_nonce);
+        put(&mut head[33..75], &masked);
         let client_pk = [reg.upload[0], reg.upload[1]];
         let eu: &[u8] = id_u.unwrap_or(&client_pk);
         let server_e_pk = spec::ke_public(e_sk_s);
